@@ -25,3 +25,8 @@ Proof. vm_compute. reflexivity. Qed.
 Theorem C13_complete_chain_nodup : forall f t fat i l, chain_go f t fat i = (l, true) -> NoDup l.
 Proof. exact chain_go_nodup. Qed.
 Print Assumptions C13_complete_chain_nodup.
+
+(** the work and the result size of a directory read are bounded by the bytes given, whatever they are *)
+Theorem C13_dir_read_bounded : forall f b acc' pend' stop, scan_slots f b [] [] = Ok (acc', pend', stop) -> (length acc' <= f)%nat /\ (32 * length acc' <= length b)%nat.
+Proof. exact scan_count_bound. Qed.
+Print Assumptions C13_dir_read_bounded.
